@@ -48,6 +48,17 @@ func genSync(o *hx.Out, r *hx.Rng, n int) {
 		{N: 4, Prefix: 13, Own: 3, Peer: 2, Full: true, ForkMode: "peerfull", Recent: true, HCB: "honest", Corrupt: -1, ErrAfter: -1},
 		{N: 4, Prefix: 16, Own: 4, Peer: 3, Full: true, ForkMode: "peerfull", Recent: true, HCB: "honest", Corrupt: -1, ErrAfter: -1},
 		{N: 4, Prefix: 12, Own: 4, Peer: 3, Full: true, ForkMode: "peerfull", HCB: "honest", Corrupt: -1, ErrAfter: -1},
+		// a lying peer names our own tip as the common block although the block it offered is lower: block height - common
+		// height wraps in uint32 and the fast sync must be abandoned untouched
+		{N: 4, Prefix: 12, Own: 4, Peer: 3, Full: true, ForkMode: "peerfull", HCB: "echo", Corrupt: -1, ErrAfter: -1},
+		{N: 4, Prefix: 5, Own: 4, Peer: 2, HCB: "echo", Corrupt: -1, ErrAfter: -1},
+		// forks longer than the 103-block cap: several getBlocksFromID requests (honest; invalid block / broken stream in a later batch)
+		{N: 4, Prefix: 3, Own: 2, Peer: 230, HCB: "honest", Corrupt: -1, ErrAfter: -1},
+		{N: 4, Prefix: 2, Own: 1, Peer: 215, HCB: "honest", Corrupt: 150, CorruptKind: "sig", ErrAfter: -1},
+		{N: 4, Prefix: 2, Own: 1, Peer: 120, HCB: "honest", Corrupt: -1, ErrAfter: 110, Stall: "empty"},
+		// the block's generator is not a current validator: no fast sync although the heights are close
+		{N: 4, Prefix: 3, Own: 2, Peer: 4, HCB: "honest", Corrupt: -1, ErrAfter: -1, NonValidator: true},
+		{N: 4, Prefix: 12, Own: 1, Peer: 3, Full: true, Recent: true, HCB: "honest", Corrupt: -1, ErrAfter: -1, NonValidator: true},
 		// recent finality, far apart: nothing is done (neither mechanism applies)
 		{N: 4, Prefix: 12, Own: 0, Peer: 10, Full: true, Recent: true, HCB: "honest", Corrupt: -1, ErrAfter: -1},
 		// failed block sync, then an honest fast sync
@@ -79,6 +90,11 @@ func genSync(o *hx.Out, r *hx.Rng, n int) {
 			s.HCB = "foreign"
 		case 2:
 			s.HCB = "low"
+		case 3:
+			s.HCB = "echo"
+			if r.Intn(2) == 0 && s.Own > 1 { // the offered block below our tip
+				s.Peer = s.Own - 1 - r.Intn(s.Own-1)
+			}
 		}
 		switch r.Intn(6) {
 		case 0, 1:
@@ -90,6 +106,7 @@ func genSync(o *hx.Out, r *hx.Rng, n int) {
 			s.ErrAfter = r.Intn(s.Peer + 1)
 			s.Stall = []string{"", "", "empty", "repeat"}[r.Intn(4)]
 		}
+		s.NonValidator = r.Intn(12) == 0
 		if r.Intn(8) == 0 { // three nodes, block sync: the sender shares more of our fork than the best peer
 			s.Full, s.Own = false, 2+r.Intn(8)
 			s.Sender, s.SenderShare = true, 1+r.Intn(s.Own)
